@@ -218,9 +218,18 @@ def compare(impl, model, ignore=()):
     for k, v in mflds.items():
         if k in ignore:
             continue
-        if k in iflds and iflds[k] != v:
+        if k in iflds and canon_field(k, iflds[k]) != canon_field(k, v):
             return f'field {k} differs: impl {iflds[k][:100]} model {v[:100]}'
     return None
+
+_ERRITEM = re.compile(r'(E/|ERR:)(?!Io\(UnexpectedEof\))[^;]*')
+
+def canon_field(k, v):
+    """error classes inside result sequences are compared coarsely (error vs no error; end of
+    input stays distinguished because it terminates the sequence)"""
+    if k in ('seq', 'trace'):
+        return _ERRITEM.sub(lambda m: m.group(1) + '*', v)
+    return v
 
 def ints(s):
     if s in ('', '-'):
